@@ -150,7 +150,7 @@ def work(arg):
     if chosen is not None:
         e = core.relerr(w_solved, chosen[:k])
         out['worst_pub'] = e
-        if e > 1e-4:
+        if e > 1e-7:
             v('published-hk-equation', f'pressures computed from the published slit HK equation for widths {chosen[:4]} are mapped back to {w_solved[:4]} (rel. dev. {e:.3g})', chosen[:k], w_solved)
     # (ii) global minimiser on a dense scan of the bracket
     cov = None
@@ -199,8 +199,8 @@ def work(arg):
             res_rep = abs(math.exp(min(700.0, call['fun'](raw[i]) - corr)) - target)
         near = min(abs(raw[i] - r_) for r_ in roots)
         worst = max(worst, min(res_rep / target, near))
-        # the library's bounded Brent search stops at xatol = 1e-5 nm
-        if not (near <= 1e-4 or res_rep <= 2e-3 * target):
+        # (the library refines a bracketed root with brentq)
+        if not (near <= 1e-6 or res_rep <= 1e-5 * target):
             r_best = min(roots, key=lambda r_: abs(raw[i] - r_))
             extra = {'corrected': use_cy}
             if model.startswith('RY') and geometry == 'slit':
@@ -214,10 +214,79 @@ def work(arg):
               f'branch of the potential has its root(s) at {[round(float(r_), 6) for r_ in roots]} nm: the reported width does not solve the potential equation',
               [float(r_) for r_ in roots], float(raw[i]), extra)
             break
+    # (iv) a lattice of WIDTHS on the attractive branch, dense next to the potential minimum (the smallest pores the method resolves):
+    # the pressures the potential equation gives for them are mapped back to those widths
+    if not (model.startswith('RY') and geometry == 'cylinder' and profile != 'linear'):
+        # the attractive branch proper: from wide pores inwards for as long as the potential deepens (next to the geometric minimum some
+        # potentials are singular, and the Rege-Yang slit potential jumps where a pore holds one more layer: the lattice stays outside)
+        jst = len(scan) - 1
+        while jst > 0 and phi[jst - 1] <= phi[jst]:
+            jst -= 1
+        l_lat = scan[min(jst + 1, len(scan) - 1)] + numpy.geomspace(2e-3, 2.5, 30)
+        # the property speaks about pore widths up to ~3 nm
+        l_lat = l_lat[(l_lat - d_mat if geometry == 'slit' else 2 * l_lat - d_mat) <= 3.2]
+        n_lat = numpy.linspace(0.5, 6.0, max(len(l_lat), 1)) * scale
+        cov_lat = n_lat / (n_lat.max() * 1.01)
+        lnp_lat = numpy.array([call['fun'](x) for x in l_lat]) - (numpy.array([1 + 1 / c_ * math.log(1 - c_) for c_ in cov_lat]) if call['cy'] else 0.0)
+        with numpy.errstate(over='ignore', under='ignore'):
+            p_lat = numpy.exp(lnp_lat)
+        sel = [0] if len(p_lat) else []
+        for j in range(1, len(p_lat)):
+            if p_lat[j] > p_lat[sel[-1]] * (1 + 1e-9):
+                sel.append(j)
+        sel = [j for j in sel if 1e-300 < p_lat[j] < 0.9]
+        if call['cy']:
+            sel = sel if (len(sel) and sel[-1] == len(p_lat) - 1) else []     # the coverage is normalised by the last loading passed
+        if len(sel) >= 5:
+            rec2 = Recorder()
+            rec2.install()
+            try:
+                o2 = core.call(fn, p_lat[sel].copy(), n_lat[sel].copy(), T, geometry, ads, mat, use_cy, timeout=600)
+            finally:
+                rec2.remove()
+            out['ev'] += 1
+            if o2.ok and rec2.calls:
+                out['nt'] += 1
+                raw2 = rec2.calls[0]['widths']
+                p2 = p_lat[sel][:len(raw2)]
+                want2 = l_lat[sel][:len(raw2)]
+                out['worst_lattice'] = float(numpy.abs(raw2 - want2).max())
+                extra = {'corrected': use_cy, 'part': 'width lattice'}
+                if not (model.startswith('RY') and geometry == 'slit'):
+                    extra['case'] = f'{mat_name}/{ads_name}/{T:g} K'
+                # each returned width solves the equation (the equation may have other roots than the lattice width) ...
+                corr2 = (numpy.array([1 + 1 / c_ * math.log(1 - c_) for c_ in cov_lat]) if call['cy'] else numpy.zeros(len(l_lat)))[sel][:len(raw2)]
+                with numpy.errstate(over='ignore'):
+                    res2 = numpy.array([abs(math.exp(min(700.0, call['fun'](raw2[j]) - corr2[j])) - p2[j]) / p2[j] for j in range(len(raw2))])
+                notroot = numpy.flatnonzero((res2 > 1e-5) & (numpy.abs(raw2 - want2) > 1e-6))
+                if len(notroot):
+                    j = int(notroot[0])
+                    ex_ns = dict(extra)
+                    if model.startswith('RY') and geometry == 'slit':
+                        # (same signature as in part (ii): the Rege-Yang slit potential switches expression where the pore holds two layers)
+                        ex_ns = {'corrected': use_cy, 'across_layer_count_discontinuity':
+                                 bool(((raw2[j] - d_mat) / ads['molecular_diameter'] < 2) != ((want2[j] - d_mat) / ads['molecular_diameter'] < 2))}
+                    v('not-a-solution', f'the pressure {p2[j]:.6g} which the potential equation gives for a solved size of {want2[j]:.6g} nm ({want2[j] - scan[jst]:.3g} nm above the potential '
+                      f'minimum) is mapped to {raw2[j]:.6g} nm, where the equation predicts p={p2[j] * (1 + res2[j]):.6g} ({len(notroot)} of {len(raw2)} lattice points)', want2, raw2, ex_ns)
+                # ... and the widths do not decrease along the increasing pressures
+                dec2 = numpy.flatnonzero(numpy.diff(raw2) < -1e-7)
+                if len(dec2):
+                    j = int(dec2[0])
+                    cov_j = float(cov_lat[sel][j + 1]) if call['cy'] else None
+                    if cov_j is not None and cov_j > 0.9:
+                        ex_wd = {'corrected': use_cy, 'high_coverage': True}       # (same signature as in the main part: the Cheng-Yang term diverges)
+                    elif model.startswith('RY') and geometry == 'slit':
+                        ex_wd = {'corrected': use_cy, 'high_coverage': False}
+                    else:
+                        ex_wd = dict(extra, high_coverage=False)
+                    v('widths-decrease', f'along the increasing pressures {p2[j]:.6g} -> {p2[j + 1]:.6g} (generated from solved sizes {want2[j]:.6g} -> {want2[j + 1]:.6g} nm, '
+                      f'{want2[j] - scan[jst]:.3g} nm above the potential minimum) the solved size decreases: {raw2[j]:.6g} -> {raw2[j + 1]:.6g} nm', None, raw2, ex_wd)
+            elif not o2.ok:
+                v('raises', 'width lattice: ' + o2.brief(), None, o2.brief(), {'kind': o2.kind, 'part': 'width lattice'})
     out['no_root_in_domain'] = no_root
     out['worst_scan'] = worst
     # widths non-decreasing in pressure
-    dec = numpy.diff(w_solved) < -1e-4          # the library's Brent search stops at xatol = 1e-5 nm
+    dec = numpy.diff(w_solved) < -1e-7
     dec = dec & in_domain[:-1] & in_domain[1:] if len(dec) == len(in_domain) - 1 else dec      # pressures without a pore width say nothing
     if dec.any():
         i = int(numpy.argmax(dec))
@@ -384,7 +453,7 @@ def run(ctx):
     for r in res:
         ctx.add('hk_analyses', r['ev'], r['nt'])
         ctx.violate(r['viol'])
-        ctx.track('published_slit_equation', r['worst_pub'], 1e-4)
+        ctx.track('published_slit_equation', r['worst_pub'], 1e-7)
     check_entry(ctx)
     ctx.cov['domain_sizes'] = {'analyses': len(jobs), 'models': 4, 'geometries': 3, 'adsorbents': 4, 'adsorbates': 5, 'temperatures': 4, 'profiles': 2, 'points_per_analysis': 12}
     ctx.cov['rule'] = ('4 models x 3 geometries x 4 adsorbent sets x 5 adsorbate sets x 4 temperatures x 2 loading profiles x 12 pressures (quick: a quarter of the '
@@ -392,7 +461,7 @@ def run(ctx):
                        'the independently implemented published equation; every solved width is compared with a 250-1500 point scan of the solver bracket.')
     ctx.require('analyses', len(jobs), 100)
     ctx.sample({'model': 'HK', 'geometry': 'slit', 'adsorbent': 'Carbon(HK)', 'adsorbate': 'N2', 'T': 77.355,
-                'oracle': 'widths chosen on a lattice -> pressures by the published equation -> mapped back within 1e-4'})
+                'oracle': 'widths chosen on a lattice -> pressures by the published equation -> mapped back within 1e-7'})
     ctx.sample({'model': 'RY-CY', 'geometry': 'sphere', 'oracle': 'no scanned width in the bracket solves exp(phi - correction) = p better than the reported one'})
     ctx.assumptions += ['solver inputs/outputs observed by run-time rebinding of psd_micro._solve_hk(_cy); the potential closures themselves are the library\'s (only the slit HK potential has an independent reference)',
-                        'Brent tolerance of the library solver (xatol 1e-5): published-equation round trip judged at 1e-4']
+                        'the library refines bracketed roots with brentq: published-equation round trip judged at 1e-7, roots at 1e-6 nm, monotonicity at 1e-7 nm']
